@@ -565,9 +565,9 @@ def c05(tier, seed):
              "EVERY public array / scalar property found by reflection is recorded, and TLC "
              "validates each recorded pair against the re-index relation (TraceRelation.tla); "
              "non-trivial = the order changed or elements were removed",
-        assumptions=ASSUME_COMMON + ["value identity is token identity of the float repr: the "
-                                     "library computes blocks before ordering, so a re-indexed "
-                                     "output is bit-identical"],
+        assumptions=ASSUME_COMMON + ["value identity: floats agree to a relative 1e-9 (the library "
+                                     "computes blocks before ordering, so a re-indexed output is "
+                                     "in fact bit-identical today)"],
         feature_floor=("order_changed", "elements_removed"),
     )
 
@@ -667,9 +667,8 @@ def c10(tier, seed):
              "exchanging the dimension dicts and permuting the axes of every payload tensor; "
              "both are evaluated by the library and TLC validates the recorded pair against "
              "the mirror table of TraceRelation.tla",
-        assumptions=ASSUME_COMMON + ["value identity is token identity of the float repr "
-                                     "(observed to hold between the row- and column-direction "
-                                     "code paths on integer-weighted data)"],
+        assumptions=ASSUME_COMMON + ["value identity: floats agree to a relative 1e-9 (the row- and "
+                                     "column-direction code paths may round differently)"],
         feature_floor=("data", "insertions"),
     )
 
